@@ -1,7 +1,9 @@
 package sim
 
 import (
+	"fmt"
 	"testing"
+	"testing/synctest"
 
 	"pgregory.net/rapid"
 )
@@ -72,13 +74,27 @@ func init() {
 	p2.WIter = 3
 	p2.WLongTxn = 4
 	p2.MaxClients = 5
+	p2mv := *p2
+	p2m := &p2mv
+	p2m.Name = "M-C02"
+	p2m.Managed = true
+	p2m.TsNarrow = true
+	p2m.WDiscardTs = 3
+	p2m.WIter = 0 // iterators are not modelled in managed mode (a commit below the read timestamp may still be in flight)
 	register(&Scenario{Prop: "C02", Family: "T", Level: "exploration", Profile: p2,
 		Gen: func(t *rapid.T) *Case {
+			if rapid.IntRange(0, 3).Draw(t, "c02_managed_variant") == 0 {
+				// managed mode: caller-chosen read/commit timestamps from a narrow range,
+				// SetDiscardTs moving the conflict-log cleanup horizon
+				c := GenCase(t, p2m)
+				c.Cfg.DetectConflicts = true
+				return c
+			}
 			c := GenCase(t, p2)
 			c.Cfg.DetectConflicts = true
 			return c
 		},
-		Rule: "read-modify-write clients on <=5 overlapping keys incl. long-running transactions held over many other commits; for every Commit the harness computes from the model whether a commit with ts > readTs wrote a key this transaction read (Get outside own writes, iterator Item, Seek key): ErrConflict iff such a witness exists; rejected commits must stay invisible (C01 oracle on later reads). non-trivial = the run contains >=1 commit attempt of a transaction that had read a key while another commit was allocated after its begin",
+		Rule: "read-modify-write clients on <=5 overlapping keys incl. long-running transactions held over many other commits; for every Commit the harness computes from the model whether a commit with ts > readTs wrote a key this transaction read (Get outside own writes, iterator Item, Seek key): ErrConflict iff such a witness exists; rejected commits must stay invisible (C01 oracle on later reads); one case in four runs in managed mode (NewTransactionAt/CommitAt with timestamps from 1..12, SetDiscardTs), where the witness is any earlier-accepted commit with a timestamp above the read timestamp, checked while the discard timestamp is not above the read timestamp. non-trivial = the run contains >=1 commit attempt of a transaction that had read a key while another commit was allocated after its begin",
 	})
 	// C08 crash prefix (kill model: page cache survives)
 	p8 := profT("R-C08")
@@ -519,7 +535,20 @@ func init() {
 			return c
 		},
 		Run: func(t *testing.T, c *Case, keep bool) Outcome {
-			return executeWith(t, c, p24, keep, func(r *Run) { r.extra = restoreCheck }, nil)
+			// the restore runs after the simulated run, in a bubble of its own without the
+			// scheduler: Load is a burst of asynchronous writes whose batching in doWrites
+			// would otherwise consume schedule decisions in a timing-dependent number
+			return executeWith(t, c, p24, keep, nil, func(t *testing.T, r *Run) {
+				if r.viol != nil || r.harness != "" {
+					return
+				}
+				defer func() {
+					if p := recover(); p != nil && r.viol == nil && r.harness == "" {
+						r.harness = fmt.Sprintf("panic around restore bubble: %v", p)
+					}
+				}()
+				synctest.Test(t, func(t *testing.T) { restoreCheck(r) })
+			})
 		},
 		Rule: "the first client takes a full Backup and then incremental Backups, each with the version the previous one returned, while 1-3 other clients commit between AND during the backups (the backup's producer goroutines are scheduled actors); at the end the whole chain is Loaded into a fresh database, which must equal the source (value, user meta, expiry, version of every key) as of some single timestamp between the start and the end of the last backup. non-trivial = run whose chain was restored and verified",
 	})
